@@ -137,10 +137,13 @@ fn clone_case<T: MaybeDynSized<Metadata = usize> + ?Sized>(ctx: &mut Ctx, key: &
 
 fn run(ctx: &mut Ctx) {
     let nmax = if ctx.quick() { 16 } else { 40 };
-    ctx.bound("new_boxed", format!("all splits of a marker content of total length 0..={} into 0..=4 slices (empty slices included) x header kinds TagHeader, DummyTestHeader, HeaderTagHeader, BootInformationHeader, Multiboot2BasicHeader (with checksum); every allocator call recorded", nmax));
+    ctx.bound("new_boxed", format!("all splits of a marker content of total length 0..={} into 0..=4 slices (0..=8 slices for contents of up to 5 bytes; empty slices included) x header kinds TagHeader, DummyTestHeader, HeaderTagHeader, BootInformationHeader, Multiboot2BasicHeader (with checksum); every allocator call recorded", nmax));
     for n in 0..=nmax {
         let content: Vec<u8> = (0..n).map(|i| marker(i, 61)).collect();
-        for k in 0..=4usize {
+        for k in 0..=8usize {
+            if k > 4 && n > 5 {
+                continue; // 5..=8 slices: contents of up to 5 bytes
+            }
             for split in splits(n, k) {
                 for hk in 0..5 {
                     let describe = || J::obj().set("part", "new_boxed").set("header_kind", ["TagHeader", "DummyTestHeader", "HeaderTagHeader", "BootInformationHeader", "Multiboot2BasicHeader"][hk]).set("content_len", n).set("split", format!("{:?}", split));
@@ -163,8 +166,8 @@ fn run(ctx: &mut Ctx) {
             }
         }
     }
-    ctx.bound("new_boxed_large", "contents of 255, 256, 257, 65535, 65536 and 65537 bytes split at every pair of cut points from {0, 1, n/2, n-1, n}, all five header kinds");
-    for n in [255usize, 256, 257, 65535, 65536, 65537] {
+    ctx.bound("new_boxed_large", "contents of 255..257, 1023..1025, 4087, 4088, 4095..4097, 65535..65537 and 2^20 bytes split at every pair of cut points from {0, 1, n/2, n-1, n}, all five header kinds");
+    for n in [255usize, 256, 257, 1023, 1024, 1025, 4087, 4088, 4095, 4096, 4097, 65535, 65536, 65537, 1 << 20] {
         let content: Vec<u8> = (0..n).map(|i| marker(i, 67)).collect();
         let cuts = [0usize, 1, n / 2, n - 1, n];
         for &c1 in &cuts {
@@ -215,6 +218,9 @@ fn run(ctx: &mut Ctx) {
         cl!("ElfSectionsTag", ElfSectionsTag, |t: &ElfSectionsTag| t.header().size as usize, || ElfSectionsTag::new(0, 64, 0, &blob));
         cl!("EFIMemoryMapTag", EFIMemoryMapTag, |t: &EFIMemoryMapTag| t.header().size as usize, || EFIMemoryMapTag::new_from_map(48, 1, &blob));
         cl!("GenericTag", DynSizedStructure<TagHeader>, |t: &DynSizedStructure<TagHeader>| t.header().size as usize, || new_boxed::<DynSizedStructure<TagHeader>>(TagHeader::new(TagType::Custom(77), 0), &[&blob]));
+        cl!("GenericHeaderTag", DynSizedStructure<HeaderTagHeader>, |t: &DynSizedStructure<HeaderTagHeader>| t.header().size() as usize, || new_boxed::<DynSizedStructure<HeaderTagHeader>>(HeaderTagHeader::new(HeaderTagType::Relocatable, HeaderTagFlag::Optional, 0), &[&blob]));
+        cl!("BootInformation", DynSizedStructure<BootInformationHeader>, |t: &DynSizedStructure<BootInformationHeader>| t.header().total_size() as usize, || new_boxed::<DynSizedStructure<BootInformationHeader>>(unsafe { std::mem::transmute::<[u32; 2], BootInformationHeader>([0, 0]) }, &[&blob]));
+        cl!("Multiboot2Header", DynSizedStructure<Multiboot2BasicHeader>, |t: &DynSizedStructure<Multiboot2BasicHeader>| t.header().length() as usize, || new_boxed::<DynSizedStructure<Multiboot2BasicHeader>>(unsafe { std::mem::transmute::<[u32; 4], Multiboot2BasicHeader>([0xE852_50D6, 4, 0, 0]) }, &[&blob]));
         cl!("DummyDstTag", DummyDstTag, |t: &DummyDstTag| t.header().size() as usize, || new_boxed::<DummyDstTag>(DummyTestHeader::new(42, 0), &[&blob]));
         if n <= 8 {
             let pal: Vec<FramebufferColor> = (0..n).map(|i| FramebufferColor { red: i as u8, green: 0x80 + i as u8, blue: 0xC0 + i as u8 }).collect();
